@@ -118,6 +118,7 @@ func genDag(tp *simrt.Tape, o stepGenOpts) *DagSpec {
 		s.ContSkip = chance(tp, 1, 4)
 		if o.allowPre && chance(tp, 1, 5) {
 			s.Precond = 1 + tp.Draw(simrt.SGen, 2)
+			s.PrecondExtra = tp.Draw(simrt.SGen, 3) // sometimes a second condition (always met) after or before it
 		}
 		// outcome script
 		switch tp.Draw(simrt.SGen, 6) {
